@@ -4,21 +4,22 @@
 # usage: tools/benign_matrix.sh [name-prefix] [dir]   -> .work/benign_matrix.txt
 cd /verif
 dir=${2:-/verif/benign}
-out=.work/benign_matrix.txt; : > $out
+out=.work/benign_matrix.$$.txt; : > $out
 checks_for() {
   local f=$1 s=""
-  grep -q "^+++ b/node/pkg/processor/" $f && s="$s C01 C02 C03 C04 C07 C13 C14"
-  grep -q "^+++ b/node/pkg/vaa/" $f && s="$s C01 C04 C05 C06 C12 C15"
-  grep -q "^+++ b/node/pkg/db/" $f && s="$s C01 C12 C16"
+  local PROC="C01 C02 C03 C04 C06 C07 C13 C14 C17"
+  grep -q "^+++ b/node/pkg/processor/" $f && s="$s $PROC"
+  grep -q "^+++ b/node/pkg/vaa/" $f && s="$s $PROC C05 C12 C15 C16"
+  grep -q "^+++ b/node/pkg/db/" $f && s="$s $PROC C12 C16"
   grep -q "^+++ b/node/pkg/alephium/" $f && s="$s C08 C09 C11"
-  grep -q "^+++ b/node/pkg/ethereum/" $f && s="$s C10"
-  grep -q "^+++ b/node/pkg/common/" $f && s="$s C03 C17"
+  grep -q "^+++ b/node/pkg/ethereum/" $f && s="$s C10 C07"
+  grep -q "^+++ b/node/pkg/common/" $f && s="$s $PROC"
   grep -q "^+++ b/node/pkg/p2p/" $f && s="$s C03"
-  grep -q "^+++ b/node/cmd/guardiand/" $f && s="$s C03 C12 C15 C17"
+  grep -q "^+++ b/node/cmd/guardiand/" $f && s="$s C01 C03 C12 C13 C15 C17"
   grep -q "^+++ b/node/cmd/spy/" $f && s="$s C20"
-  grep -q "^+++ b/node/pkg/supervisor/" $f && s="$s C18"
-  grep -q "^+++ b/node/pkg/publicrpc/" $f && s="$s C12"
-  grep -q "^+++ b/explorer-backend/" $f && s="$s C19"
+  grep -q "^+++ b/node/pkg/supervisor/" $f && s="$s C18 C10 C13"
+  grep -q "^+++ b/node/pkg/publicrpc/" $f && s="$s C12 C16"
+  grep -q "^+++ b/explorer-backend/" $f && s="$s C19 C06"
   grep -q "^+++ b/alephium/contracts/" $f && s="$s C04 C07 C09 C11 C15"
   grep -q "^+++ b/ethereum/contracts/" $f && s="$s C04 C07"
   echo $s | tr ' ' '\n' | sort -u | tr '\n' ' '
@@ -40,4 +41,5 @@ run_one() {
 export -f run_one
 ls $dir/${1:-C}*.diff | xargs -P 5 -I{} bash -c 'run_one {}' >> $out
 sort -o $out $out
+cp $out .work/benign_matrix.txt
 echo "runs: $(wc -l < $out)  alarms: $(grep -c VIOLATION $out)"; grep VIOLATION $out
